@@ -370,39 +370,13 @@ Qed.
 
 (* ===================== one retrieval round ===================== *)
 
-(* In Proc.retrieve_round the two Get SDR Repository Info answers are both
-   [info tt] for one pure function [info], hence always equal: the staleness
-   branch is unreachable there.  [retrieve_round2] is the same procedure with
-   the two answers supplied separately; [retrieve_round] is its diagonal. *)
-Definition retrieve_round2 (info0 info1 : option (N * N)) (reserve : unit -> option N)
-           (get : sdr_server) (fuel : nat) : option (list (N * fsr)) :=
-  match info0 with
-  | None => None
-  | Some (add0, erase0) =>
-      match reserve tt with
-      | None => None
-      | Some rid =>
-          match walk get rid 0 fuel [] with
-          | WOk m =>
-              match info1 with
-              | Some (add1, erase1) => if (add0 <? add1) || (erase0 <? erase1) then None else Some m
-              | None => None
-              end
-          | _ => None
-          end
-      end
-  end.
-
-Lemma retrieve_round_diag info reserve get fuel :
-  retrieve_round info reserve get fuel = retrieve_round2 (info tt) (info tt) reserve get fuel.
-Proof. reflexivity. Qed.
 
 (* a newer addition or erase timestamp in the second answer: retry *)
-Theorem retrieve_round2_stale add0 erase0 add1 erase1 reserve get fuel :
+Theorem retrieve_round_stale add0 erase0 add1 erase1 reserve get fuel :
   add0 < add1 \/ erase0 < erase1 ->
-  retrieve_round2 (Some (add0, erase0)) (Some (add1, erase1)) reserve get fuel = None.
+  retrieve_round (Some (add0, erase0)) (Some (add1, erase1)) reserve get fuel = None.
 Proof.
-  intros H. unfold retrieve_round2.
+  intros H. unfold retrieve_round.
   destruct (reserve tt) as [rid|]; [|reflexivity].
   destruct (walk get rid 0 fuel []); try reflexivity.
   assert (E : ((add0 <? add1) || (erase0 <? erase1))%bool = true).
@@ -411,26 +385,26 @@ Proof.
 Qed.
 
 (* no newer timestamp and a successful walk: the walk's result *)
-Theorem retrieve_round2_fresh add0 erase0 add1 erase1 reserve get fuel rid m :
+Theorem retrieve_round_fresh add0 erase0 add1 erase1 reserve get fuel rid m :
   add1 <= add0 -> erase1 <= erase0 ->
   reserve tt = Some rid ->
   walk get rid 0 fuel [] = WOk m ->
-  retrieve_round2 (Some (add0, erase0)) (Some (add1, erase1)) reserve get fuel = Some m.
+  retrieve_round (Some (add0, erase0)) (Some (add1, erase1)) reserve get fuel = Some m.
 Proof.
-  intros Ha He Hr Hw. unfold retrieve_round2. rewrite Hr, Hw.
+  intros Ha He Hr Hw. unfold retrieve_round. rewrite Hr, Hw.
   destruct (N.ltb_spec add0 add1); [lia|]. destruct (N.ltb_spec erase0 erase1); [lia|]. reflexivity.
 Qed.
 
 (* the round returns a result only if the walk succeeded with that result and
    the timestamps did not advance *)
-Theorem retrieve_round2_some info0 info1 reserve get fuel m :
-  retrieve_round2 info0 info1 reserve get fuel = Some m ->
+Theorem retrieve_round_some info0 info1 reserve get fuel m :
+  retrieve_round info0 info1 reserve get fuel = Some m ->
   exists add0 erase0 add1 erase1 rid,
     info0 = Some (add0, erase0) /\ info1 = Some (add1, erase1) /\
     add1 <= add0 /\ erase1 <= erase0 /\
     reserve tt = Some rid /\ walk get rid 0 fuel [] = WOk m.
 Proof.
-  unfold retrieve_round2. destruct info0 as [[a0 e0]|]; [|discriminate].
+  unfold retrieve_round. destruct info0 as [[a0 e0]|]; [|discriminate].
   destruct (reserve tt) as [rid|]; [|discriminate].
   destruct (walk get rid 0 fuel []) as [m'| |] eqn:Hw; try discriminate.
   destruct info1 as [[a1 e1]|]; [|discriminate].
@@ -440,11 +414,10 @@ Proof.
   exists a0, e0, a1, e1, rid. repeat split; auto.
 Qed.
 
-(* the statement for Proc.retrieve_round itself: the answers agree, so the
-   round returns exactly the walk's result *)
+(* unchanged answers: the round returns exactly the walk's result *)
 Theorem retrieve_round_consistent info reserve get fuel add erase rid :
-  info tt = Some (add, erase) -> reserve tt = Some rid ->
-  retrieve_round info reserve get fuel =
+  info = Some (add, erase) -> reserve tt = Some rid ->
+  retrieve_round info info reserve get fuel =
   match walk get rid 0 fuel [] with WOk m => Some m | _ => None end.
 Proof.
   intros Hi Hr. unfold retrieve_round. rewrite Hi, Hr.
@@ -452,18 +425,18 @@ Proof.
   rewrite !N.ltb_irrefl. reflexivity.
 Qed.
 
-Theorem retrieve_round_failures info reserve get fuel :
-  info tt = None \/ reserve tt = None -> retrieve_round info reserve get fuel = None.
+Theorem retrieve_round_failures info0 info1 reserve get fuel :
+  info0 = None \/ reserve tt = None -> retrieve_round info0 info1 reserve get fuel = None.
 Proof.
   intros [Hf|Hf]; unfold retrieve_round; rewrite Hf; [reflexivity|].
-  destruct (info tt) as [[a e]|]; reflexivity.
+  destruct info0 as [[a e]|]; reflexivity.
 Qed.
 
 (* a round against a well-formed repository yields its Full Sensor Records *)
 Theorem retrieve_round_repo recs info reserve add erase rid :
   wf_repo recs -> walkable recs ->
-  info tt = Some (add, erase) -> reserve tt = Some rid ->
-  retrieve_round info reserve (serve_sdr recs) (length recs + 1) = Some (full_records recs).
+  info = Some (add, erase) -> reserve tt = Some rid ->
+  retrieve_round info info reserve (serve_sdr recs) (length recs + 1) = Some (full_records recs).
 Proof.
   intros Hwf Hw Hi Hr. rewrite (retrieve_round_consistent _ _ _ _ _ _ _ Hi Hr).
   rewrite walk_complete by assumption. reflexivity.
